@@ -1,0 +1,106 @@
+//go:build verif
+
+package handlers
+
+// Contracts for govc (see /verif/DESIGN.md). Comment-only file: contributes no code.
+
+// ---- C11: provider-scoped routes stay inside their provider
+
+//@ spec func normType(p string) string = ite(lower(purecall("strings.ReplaceAll", "string", p, "_", "-")) == "lmstudio" || lower(purecall("strings.ReplaceAll", "string", p, "_", "-")) == "lm-studio", "lm-studio", lower(purecall("strings.ReplaceAll", "string", p, "_", "-")))
+//@ spec func epCompatible(e *domain.Endpoint, sb []string) bool = compatibleWith(sb, normType(e.Type))
+//@ spec func anyCompatible(es []*domain.Endpoint, sb []string) bool = exists ai int :: 0 <= ai && ai < len(es) && epCompatible(es[ai], sb)
+
+//@ func NormaliseProviderType
+//@   property C11
+//@   ensures res == normType(provider)
+//@   ensures provider != "" ==> res != ""
+
+//@ func (a *Application) extractRequiredCapabilities
+//@   property C11
+//@   requires caps != nil
+//@   ensures true
+
+//@ func (a *Application) addModelsToMap
+//@   property C11
+//@   requires capableModels != nil
+//@   modifies capableModels[all]
+//@   loop 1 invariant otherMapsUnchanged(capableModels)
+//@   loop 2 invariant otherMapsUnchanged(capableModels)
+//@   ensures true
+
+//@ func (a *Application) intersectModels
+//@   property C11
+//@   loop 1 invariant fresh(newCapableModels) && mapsUnchanged(existingCapableModels)
+//@   loop 2 invariant fresh(newCapableModels) && mapsUnchanged(existingCapableModels)
+//@   ensures res != nil && fresh(res)
+
+//@ func (a *Application) findCapableModels
+//@   property C11
+//@   loop 1 invariant fresh(capableModels) && capableModels != nil && mapsUnchanged(capableModels)
+//@   ensures res == nil || fresh(res)
+
+//@ func (a *Application) filterEndpointsByCapableModels
+//@   property C03 C11
+//@   requires allNonNil(endpoints)
+//@   loop 1 invariant forall k int :: 0 <= k && k < len(capableEndpoints) ==> member(capableEndpoints[k], endpoints)
+//@   ensures subset(res, endpoints) && allNonNil(res)
+//@   ensures len(endpoints) > 0 ==> len(res) > 0
+
+//@ func (a *Application) filterEndpointsByCapabilities
+//@   property C03 C11
+//@   requires allNonNil(endpoints) && profile != nil
+//@   ensures subset(res, endpoints) && allNonNil(res)
+//@   ensures len(endpoints) > 0 ==> len(res) > 0
+
+// Stage 1 (type compatibility, falls back to the whole list when nothing is compatible), stage 2 (capabilities),
+// stage 3 (model routing: the decision is stored in the profile; a rejected decision yields no endpoints).
+//@ func (a *Application) filterEndpointsByProfile
+//@   property C03 C09 C11
+//@   requires allNonNil(endpoints)
+//@   modifies profile.RoutingDecision, gvar decisionCount, gvar lastDecision, domain.Endpoint.Status, domain.Endpoint.Name, domain.Endpoint.URLString, domain.Endpoint.Priority, domain.Endpoint.Type, domain.Endpoint.NextCheckTime, domain.Endpoint.LastChecked, domain.Endpoint.ConsecutiveFailures, domain.Endpoint.BackoffMultiplier, domain.Endpoint.LastLatency
+//@   loop 1 invariant forall k int :: 0 <= k && k < len(compatible) ==> member(compatible[k], endpoints) && epCompatible(compatible[k], profile.SupportedBy)
+//@   loop 1 invariant forall j int :: 0 <= j && j < i$1 && epCompatible(endpoints[j], profile.SupportedBy) ==> member(endpoints[j], compatible)
+//@   ensures allNonNil(res)
+//@   ensures decisionCount == old(decisionCount) || decisionCount == old(decisionCount) + 1
+//@   ensures decisionCount == old(decisionCount) ==> subset(res, endpoints)
+//@   ensures decisionCount == old(decisionCount) && profile != nil && old(anyCompatible(endpoints, profile.SupportedBy)) && old(len(profile.SupportedBy)) > 0 ==> forall k int :: 0 <= k && k < len(res) ==> old(epCompatible(res[k], profile.SupportedBy))
+//@   ensures decisionCount == old(decisionCount) + 1 && lastDecision != nil ==> profile != nil && profile.RoutingDecision == lastDecision
+//@   ensures decisionCount == old(decisionCount) + 1 && lastDecision != nil && lastDecision.Action == "rejected" ==> len(res) == 0
+//@   ensures decisionCount == old(decisionCount) + 1 && lastDecision != nil && lastDecision.Action == "routed" ==> subset(res, endpoints)
+//@   ensures decisionCount == old(decisionCount) + 1 && lastDecision != nil && lastDecision.Action == "routed" && profile != nil && old(anyCompatible(endpoints, profile.SupportedBy)) && old(len(profile.SupportedBy)) > 0 ==> forall k int :: 0 <= k && k < len(res) ==> old(epCompatible(res[k], profile.SupportedBy))
+
+//@ ghost var lastProviderProfile *domain.RequestProfile
+
+//@ func (a *Application) createProviderProfile
+//@   property C11
+//@   requires providerType != ""
+//@   loop 1 invariant profile != nil && fresh(profile) && len(profile.SupportedBy) >= 1 && profile.RoutingDecision == nil && profile.ModelCapabilities == nil && profile.ModelName == ""
+//@   records lastProviderProfile = res
+//@   ensures res != nil && fresh(res) && len(res.SupportedBy) >= 1
+//@   ensures res.RoutingDecision == nil && res.ModelCapabilities == nil && res.ModelName == ""
+
+//@ func (a *Application) getCompatibleEndpoints
+//@   property C03 C09
+//@   requires pr != nil
+//@   modifies *
+//@   ensures decisionCount == old(decisionCount) || decisionCount == old(decisionCount) + 1
+//@   ensures err == nil ==> allNonNil(res)
+//@   ensures err == nil && decisionCount == old(decisionCount) + 1 && lastDecision != nil ==> pr.profile != nil && pr.profile.RoutingDecision == lastDecision
+//@   ensures err == nil && decisionCount == old(decisionCount) + 1 && lastDecision != nil && lastDecision.Action == "rejected" ==> len(res) == 0
+
+//@ func (a *Application) getProviderEndpoints
+//@   property C11
+//@   replay handlers_provider_endpoints@internal/app/handlers : providerType
+//@   requires pr != nil && providerType != ""
+//@   modifies *
+//@   ensures err == nil ==> allNonNil(res)
+//@   ensures err == nil ==> lastProviderProfile != nil && (forall k int :: 0 <= k && k < len(res) ==> epCompatible(res[k], lastProviderProfile.SupportedBy))
+
+//@ func keepCompatibleEndpoints
+//@   property C11
+//@   requires allNonNil(endpoints) && profile != nil
+//@   loop 1 invariant forall k int :: 0 <= k && k < len(compatible) ==> member(compatible[k], endpoints) && epCompatible(compatible[k], profile.SupportedBy)
+//@   loop 1 invariant forall j int :: 0 <= j && j < i$1 && epCompatible(endpoints[j], profile.SupportedBy) ==> member(endpoints[j], compatible)
+//@   ensures subset(res, endpoints) && allNonNil(res)
+//@   ensures forall k int :: 0 <= k && k < len(res) ==> epCompatible(res[k], profile.SupportedBy)
+//@   ensures forall j int :: 0 <= j && j < len(endpoints) && epCompatible(endpoints[j], profile.SupportedBy) ==> member(endpoints[j], res)
